@@ -21,8 +21,9 @@ for name,et,wd,dec,val in T:
 //@   ensures OutOK(out)
 //@   ensures let w = old(out.buffer.wr) in out.buffer.wr == w + 2 + {wd} * len(v) && same(old(out.buffer.data), out.buffer.data, w) && int(d16(out.buffer.data, w)) == len(v)
 //@   ensures let w = old(out.buffer.wr) in forall j int :: {{ v[j] }} 0 <= j && j < len(v) ==> {dec % (D, f'w + 2 + {wd} * j')} == {val % 'v[j]'}
+//@   ensures emod(out.written - old(out.written) - (out.buffer.wr - old(out.buffer.wr)), 4294967296 * 4294967296) == 0
 //@   modifies out.written, out.buffer.data, out.buffer.wr
-//@   loop 1 invariant 0 <= i && i <= sz && sz == len(v) && v != nil && OutOK(out)
+//@   loop 1 invariant 0 <= i && i <= sz && sz == len(v) && v != nil && OutOK(out) && (emod(out.written - old(out.written) - (out.buffer.wr - old(out.buffer.wr)), 4294967296 * 4294967296) == 0)
 //@   loop 1 invariant out.buffer.wr == old(out.buffer.wr) + 2 + {wd} * i && same(old(out.buffer.data), out.buffer.data, old(out.buffer.wr)) && int(d16(out.buffer.data, old(out.buffer.wr))) == len(v)
 //@   loop 1 invariant forall j int :: {{ v[j] }} 0 <= j && j < i ==> {dec % (D, f'old(out.buffer.wr) + 2 + {wd} * j')} == {val % 'v[j]'}
 //@   loop 1 decreases sz - i
